@@ -192,6 +192,16 @@ def build(job):
         E = (p ** 12 - 1) // r
         xs = [opt.FQ12.zero(), opt.FQ12.one(), opt.FQ12([0, 1] + [0] * 10), opt.FQ12([rng.randrange(p) if i % 5 == 0 else 0 for i in range(12)]),
               opt.FQ12([rng.randrange(p) for _ in range(12)])]
+        # elements of the cyclotomic subgroup / of G_T (norm one over Fp6): x^(p^6 - 1), an already exponentiated
+        # value and its square - "easy part" shortcuts of a final exponentiation go wrong here
+        if part == 0:
+            try:
+                x0 = opt.FQ12([rng.randrange(p) for _ in range(12)])
+                cyc = x0 ** (p ** 6 - 1)
+                gt = x0 ** E
+                xs[3:3] = [cyc, gt, gt * gt]
+            except Exception:  # noqa: BLE001 -- judged by the rows below
+                pass
         # structured supports: monomials, subfield-like supports (w^6; even powers; multiples of 3), pairs
         sup = [[k] for k in range(12)] + [[0, 6], [6], [0, 2, 4, 6, 8, 10], [0, 3, 6, 9], [0, 4, 8], [0, 1], [1, 7], [0, 6, 11]]
         sup += [sorted(rng.sample(range(12), rng.randrange(2, 6))) for _ in range(6 if quick else 40)]
